@@ -25,8 +25,11 @@ R = Registry(
         "with retry; the mutex is created test-and-set under mini_gil; the sync-on-first-run flag is set only "
         "after success; insert/append map to appendleft/append at class and instance level, walk the same "
         "subclasses and pair every collection update with its registry update (remove/clear undo all of "
-        "them); dispatch calls parent listeners then own listeners once each; subclass propagation adds only "
-        "listeners not yet present."
+        "them, directly or through the event key's list helpers); dispatch calls parent listeners then own "
+        "listeners once each; subclass propagation adds only listeners not yet present; every for_modify() "
+        "returns the collection that is installed on the owner (the placeholder's lazy install is a guarded "
+        "test-and-set in one mini_gil region, returns what it installed / what is installed, and mini_gil is a "
+        "lock in every build)."
     ),
     not_decided=(
         "full listen/remove/propagate semantics over histories; _JoinedListener; named / retval / once wrappers "
@@ -430,7 +433,7 @@ def _gil_region(pm, node):
     return None
 
 
-@R.rule("C28-R5", floor=7, template="T-PATH",
+@R.rule("C28-R5", floor=8, template="T-PATH",
         desc="every for_modify() returns the collection that is installed on the owner: the receiver itself, or -- "
              "for the _EmptyListener placeholder -- on every path the object it has just installed with "
              "setattr(owner, name, .), the owner's current value, or a fresh one only for a _JoinedListener (which "
@@ -515,8 +518,8 @@ def r5(ctx):
                "the caller gets a detached collection with its own listeners, _exec_once flag and mutex -- a once-only "
                "listener runs again for a second caller, a listener added through it is never dispatched") if bad else "",
               "installed object / current value / fresh only for a _JoinedListener", f.loc, bad[2] if bad else None)
-    # (b) test-and-set inside one mini_gil region
-    problems = []
+    # (b) test-and-set inside one mini_gil region: the install is under the lock and guarded by `<current> is self` ...
+    problems, stale = [], []
     for n, c in installs:
         st = g.nodes[n].stmt
         region = _gil_region(pm, st)
@@ -528,20 +531,23 @@ def r5(ctx):
             for a, p in guard_atoms([(t, pol)]):
                 for ctxt in cur_texts:
                     if p and a in (f"{ctxt} is self", f"self is {ctxt}"):
-                        # where was the compared value read?
+                        tested = True
+                        # ... (b') and the value compared was read inside that same region
                         if ctxt in cur:
                             inside = all(_gil_region(pm, bst) is region for _, bst in binds[ctxt])
                         else:
                             inside = _gil_region(pm, t) is region
-                        tested = tested or inside
                         if not inside:
-                            problems.append(
+                            stale.append(
                                 f"`{unparse(c)}` is decided by `{a}`, but `{ctxt}` was read before util.mini_gil was taken: two threads "
                                 "that both read the placeholder each install their own collection, the first one (with the "
                                 "listeners / exec-once state its caller put there) is silently replaced")
-        if not tested and not problems:
-            problems.append(f"`{unparse(c)}` is not preceded by a test that the owner still holds the placeholder (`<current> is self`)")
-    ctx.check(not problems, f.key + ":test-and-set-under-lock", "; ".join(sorted(set(problems))),
+        if not tested:
+            problems.append(f"`{unparse(c)}` is not guarded by a test that the owner still holds the placeholder (`<current> is self`): "
+                            "a collection installed meanwhile (and its listeners) would be overwritten")
+    ctx.check(not problems, f.key + ":install-guarded-under-lock", "; ".join(sorted(set(problems))),
+              "setattr inside mini_gil, only while the owner still holds the placeholder", f.loc)
+    ctx.check(not stale, f.key + ":current-value-read-under-lock", "; ".join(sorted(set(stale))),
               "current value read, compared with self and replaced inside one mini_gil region", f.loc)
     # (c) the region is exclusive in every build
     cm = ctx.index.module(COMPAT)
@@ -617,3 +623,51 @@ R.mutant("benign-exec-once-rename-local", ATTR,
                            "                    failed = False\n                except:\n                    failed = True\n                    raise\n                finally:\n                    if not failed or not retry_on_exception:"), None)
 R.mutant("benign-remove-reordered", ATTR,
          sub("        self.listeners.remove(event_key._listen_fn)\n        self.propagate.discard(event_key._listen_fn)\n", "        self.propagate.discard(event_key._listen_fn)\n        self.listeners.remove(event_key._listen_fn)\n"), None)
+
+# --- strengthening round (seeds C28_1 / C28_2): C28-R2 follows the _EventKey helpers, C28-R5
+REMOVE3 = ("        self.listeners.remove(event_key._listen_fn)\n        self.propagate.discard(event_key._listen_fn)\n"
+           "        registry._removed_from_collection(event_key, self)\n")
+# seed 1: the three updates replaced by the key's list helper, which knows nothing about the propagate set
+R.mutant("seed1-instance-remove-via-helper-loses-propagate", ATTR,
+         sub(REMOVE3, "        event_key.remove_from_list(self, self.listeners)\n"), "C28-R2")
+R.mutant("instance-remove-via-helper-on-propagate-only", ATTR,
+         sub(REMOVE3, "        event_key.remove_from_list(self, self.propagate)\n"), "C28-R2")
+R.mutant("benign-instance-remove-via-helper-plus-propagate", ATTR,
+         sub(REMOVE3, "        event_key.remove_from_list(self, self.listeners)\n        self.propagate.discard(event_key._listen_fn)\n"), None)
+FORMOD = ("        existing = getattr(obj, self.name)\n\n        with util.mini_gil:\n"
+          "            if existing is self or isinstance(existing, _JoinedListener):\n"
+          "                result = _ListenerCollection(self.parent, obj._instance_cls)\n            else:\n"
+          "                # this codepath is an extremely rare race condition\n"
+          "                # that has been observed in test_pool.py->test_timeout_race\n"
+          "                # with freethreaded.\n"
+          "                assert isinstance(existing, _ListenerCollection)\n                return existing\n\n"
+          "            if existing is self:\n                setattr(obj, self.name, result)\n        return result\n")
+# seed 2: read moved under the lock, but the "somebody else installed one" branch is gone: a detached collection is returned
+R.mutant("seed2-for-modify-returns-detached-collection", ATTR,
+         sub(FORMOD, "\n        with util.mini_gil:\n            result = _ListenerCollection(self.parent, obj._instance_cls)\n"
+                     "            if getattr(obj, self.name) is self:\n                setattr(obj, self.name, result)\n        return result\n"), "C28-R5")
+R.mutant("for-modify-race-branch-returns-new-collection", ATTR,
+         sub("                assert isinstance(existing, _ListenerCollection)\n                return existing\n",
+             "                assert isinstance(existing, _ListenerCollection)\n                return _ListenerCollection(self.parent, obj._instance_cls)\n"), "C28-R5")
+R.mutant("for-modify-install-outside-lock", ATTR,
+         sub("            if existing is self:\n                setattr(obj, self.name, result)\n        return result\n",
+             "        if existing is self:\n            setattr(obj, self.name, result)\n        return result\n"), "C28-R5")
+R.mutant("for-modify-install-unconditional", ATTR,
+         sub("            if existing is self:\n                setattr(obj, self.name, result)\n        return result\n",
+             "            setattr(obj, self.name, result)\n        return result\n"), "C28-R5")
+R.mutant("for-modify-never-installs-for-placeholder", ATTR,
+         sub("            if existing is self:\n                setattr(obj, self.name, result)\n        return result\n",
+             "            if existing is not self:\n                setattr(obj, self.name, result)\n        return result\n"), "C28-R5")
+R.mutant("joined-for-modify-drops-upgraded-local", ATTR,
+         sub("        self.local = self.parent_listeners = self.local.for_modify(obj)\n", "        self.local.for_modify(obj)\n"), "C28-R5")
+# the repair of the finding (read under the lock), and two re-shapings of the same logic
+R.mutant("benign-for-modify-read-under-lock", ATTR,
+         sub("        existing = getattr(obj, self.name)\n\n        with util.mini_gil:\n            if existing is self or",
+             "\n        with util.mini_gil:\n            existing = getattr(obj, self.name)\n            if existing is self or"), None)
+R.mutant("benign-for-modify-branches-return-directly", ATTR,
+         sub(FORMOD, "        existing = getattr(obj, self.name)\n\n        with util.mini_gil:\n            if existing is self:\n"
+                     "                coll = _ListenerCollection(self.parent, obj._instance_cls)\n                setattr(obj, self.name, coll)\n"
+                     "                return coll\n            elif isinstance(existing, _JoinedListener):\n"
+                     "                return _ListenerCollection(self.parent, obj._instance_cls)\n            else:\n                return existing\n"), None)
+R.mutant("benign-for-modify-rename-locals", ATTR,
+         sub(FORMOD, FORMOD.replace("existing", "current").replace("result", "coll")), None)
